@@ -17,6 +17,10 @@ def build(ctx):
     ctx.log("go build", out)
     if not ok:
         ctx.diag.append("harness does not build against the repository: " + out[-600:])
+        try:
+            os.remove(os.path.join(C.BIN, NAME))  # never search with a binary of an older tree
+        except OSError:
+            pass
         return False
     ok, out = C.build_ocaml(NAME)
     ctx.log("ocaml", out[-3000:])
@@ -41,7 +45,7 @@ def oracle(ctx, n, sub="oracle"):
 
 def search(ctx, factor):
     before = len(ctx.fails)
-    oracle(ctx, ctx.scale(1500, 30000) * factor, "search")
+    oracle(ctx, ctx.scale(8000, 150000) * factor, "search")
     found = ctx.fails[before:]
     del ctx.fails[before:]
     return found
@@ -58,7 +62,7 @@ def run(ctx):
         return
     d = os.path.join(ctx.rundir, "corr")
     os.makedirs(d, exist_ok=True)
-    rc, out = C.sh([os.path.join(C.BIN, NAME), "corr", "-out", d, "-n", str(ctx.scale(1500, 40000))], timeout=3000)
+    rc, out = C.sh([os.path.join(C.BIN, NAME), "corr", "-out", d, "-n", str(ctx.scale(8000, 150000))], timeout=3000)
     ctx.log("corr", out[-1000:])
     drv = os.path.join(C.BUILD, "ocaml", NAME, "driver")
     if rc == 0 and os.path.exists(drv):
@@ -68,7 +72,7 @@ def run(ctx):
         ctx.compare("File.SegmentFile", os.path.join(d, "model.txt"), os.path.join(d, "impl.txt"), os.path.join(d, "specs.jsonl"))
     else:
         ctx.diag.append("correspondence could not run: " + out[-300:])
-    summ = oracle(ctx, ctx.scale(1500, 30000))
+    summ = oracle(ctx, ctx.scale(8000, 150000))
     ctx.add_summary(summ, "File.SegmentFile oracle")
     if ctx.tier == "thorough":
         ctx.cov["forbidden_vernacular"] = C.forbidden_vernacular()
